@@ -90,7 +90,7 @@ pub fn history<F: Fl, const ALPHA: u8, const SK: u8, const DEPTH: usize>(cap: u6
     payload::reset();
     sched::configure(0, 0, 0, 0);
     let mut w = World::<F>::new(cap);
-    set_world::<F>(&mut w);
+    set_world::<F>(&mut *w);
     let mut m = Model::new(n);
     // a reclamation-epoch announcement becomes pending in front of a solver-chosen step (no effect
     // on the model); 10 = never
@@ -318,7 +318,7 @@ pub fn history<F: Fl, const ALPHA: u8, const SK: u8, const DEPTH: usize>(cap: u6
     if teardown {
         crate::scen_traffic::teardown::<F>(&mut w);
     } else {
-        std::mem::forget(w);
+        let _ = &w; // ManuallyDrop: never dropped
     }
 }
 
@@ -349,7 +349,7 @@ pub fn fill_drain<F: Fl>(cap: u64, n: u8) {
     payload::reset();
     sched::configure(0, 0, 0, 0);
     let mut w = World::<F>::new(cap);
-    set_world::<F>(&mut w);
+    set_world::<F>(&mut *w);
     let tx = w.tx[0].as_ref().unwrap();
     let rx = w.rx[0].as_ref().unwrap();
     // exactly N sends are accepted, the next is Full with the same value
@@ -384,7 +384,7 @@ pub fn fill_drain<F: Fl>(cap: u64, n: u8) {
     }
     assert!(F::try_send(tx, F::P::mk(101)).is_err(), "C03: more than N values were accepted");
     kani::cover!(k == n && n > 0, "the ring was filled, drained and filled again");
-    std::mem::forget(w);
+    let _ = &w; // ManuallyDrop: never dropped
 }
 
 // ------------------------------------------------------------------------------------------
@@ -447,7 +447,7 @@ pub fn drop_template<F: Fl, const SECOND: u8, const SENDERS_FIRST: bool, const V
     payload::reset();
     sched::configure(0, 0, 0, 0);
     let mut w = World::<F>::new(cap);
-    set_world::<F>(&mut w);
+    set_world::<F>(&mut *w);
     if SECOND == 1 {
         w.rx[1] = Some(F::clone_rx(w.rx[0].as_ref().unwrap()));
     } else if SECOND == 2 {
